@@ -132,7 +132,7 @@ def run(ctx):
         if len(shape) == 1 and gs is not None and gs != 1:
             gs = 1
         x, assign, _ = build_tensor(rng, shape, axis if (len(shape) > 1 or gs is not None) else None, gs, wd)
-        lays = ("contiguous",) if rng.random() < 0.7 else ("transposed", "sliced")
+        lays = ("contiguous",) if rng.random() < 0.7 else ("transposed", "sliced", "expanded", "windows")
         for lname, xl in gen.layouts(x, which=lays):
             judge(ctx, xl, bits, axis, gs, assign, lname, oq)
             i += 1
